@@ -1,4 +1,5 @@
 pub mod alloc;
+pub mod fuzzde;
 pub mod run;
 pub mod tok;
 
